@@ -1,5 +1,5 @@
 From Coq Require Import Extraction ExtrOcamlBasic ExtrOcamlString.
 From Oras Require Import Base.Prelude Generated.GC10 Model.OciCrash Model.OciCrashConc.
 Extraction Language OCaml.
-Extraction "xc10.ml" start sched call_prog expand api_res crash_ops run_acall runa load_okb run runc run_hop reopen steps_seq crash_seq run_op op_steps op_res crash_fs init recoverableb read_index apply
+Extraction "xc10.ml" start sched call_prog gstart gsched gquietb expand api_res crash_ops run_acall runa load_okb run runc run_hop reopen steps_seq crash_seq run_op op_steps op_res crash_fs init recoverableb read_index apply
   files dirs fcontent fro sfs sctr exists_file new_steps init_attempts empty_fs new_okb layout_okb src_layout_inplace src_inplace src_unlink_first src_push_order_ok.
